@@ -139,6 +139,15 @@ def sub_colormap(case):
     plt, plot = _mpl()
     cli.reset_state()
     real, obj, timed = _build(case)
+    if case.get("standstill") and real.n >= 3:
+        # a stationary stretch (and a move along one axis only): consecutive poses share plotted coordinates
+        P = real.P.copy()
+        j = real.n // 2
+        P[j] = P[j - 1]
+        if real.n >= 4:
+            P[-1] = P[-2] + np.array([0.0, 0.0, 1.0])
+        real = trajgen.Real(P, real.Rs(), real.mode, real.T)
+        obj = real.build(case["traj"]["pre"], timed=timed)
     other = trajgen.Real(real.P[::-1] * 1.5 + 0.25, real.Rs(), real.mode, real.T).build(timed=timed)
     mode = case["mode"]
     three_d = mode == "xyz"
@@ -263,6 +272,26 @@ def sub_time_series(case):
             if float(np.abs(R - Rs[k]).max()) > 1e-7:
                 raise Mismatch("traj_rpy: roll/pitch/yaw (%.6f, %.6f, %.6f) deg plotted for pose %d do not describe its orientation" % (
                     ang[0][k], ang[1][k], ang[2][k], k), observed="rpy_data")
+        # history: the same object plotted again after an in-place operation shows its CURRENT orientation / coordinates
+        M = rm.se3(rm.rodrigues(np.array([0.3, -0.5, 0.8])), np.array([1.0, -2.0, 0.5]))
+        obj.transform(M.copy())
+        real = real.left(M)
+        fig4, axarr4 = plt.subplots(3)
+        plot.traj_rpy(axarr4, obj, start_timestamp=start)
+        Rs2 = real.Rs()
+        for k in range(n):
+            a = [float(axarr4[i].lines[0].get_ydata()[k]) for i in range(3)]
+            R = _euler_recon(math.radians(a[0]), math.radians(a[1]), math.radians(a[2]))
+            if float(np.abs(R - Rs2[k]).max()) > 1e-7:
+                raise Mismatch("traj_rpy after an in-place transform(): plotted angles of pose %d do not describe its current orientation (second plot of the same object)" % k,
+                               observed="rpy_stale")
+        fig5, axarr5 = plt.subplots(3)
+        plot.traj_xyz(axarr5, obj, start_timestamp=start)
+        for i in range(3):
+            if float(np.abs(np.asarray(axarr5[i].lines[0].get_ydata(), dtype=float) - real.P[:, i]).max()) > 1e-9 * (1 + float(np.abs(real.P).max())):
+                raise Mismatch("traj_xyz after an in-place transform(): subplot %d does not show the current %s coordinates" % (i, "xyz"[i]), observed="xyz_stale")
+            if not _eq(axarr5[i].lines[0].get_xdata(), x_exp):
+                raise Mismatch("second plot of the same trajectory: x data is not %s" % ("timestamps - start" if timed else "the pose index"), observed="time_axis")
         if timed and n >= 2:
             fig3 = plt.figure()
             ax = fig3.gca()
@@ -343,7 +372,7 @@ def _st_plot(min_n, max_n):
         "traj": trajgen.st_traj(n, stamps=True, exp_lo=-2, exp_hi=4), "timed": st.booleans(), "mode": st.sampled_from(MODES),
         "unit": st.sampled_from(["mm", "cm", "m", "km"]), "markers": st.booleans(), "style": st.sampled_from(["-", "--", "o"]),
         "scale": st.sampled_from([0.0, 0.1, 2.5]), "start": st.sampled_from(["none", "t0", "other"]),
-        "container": st.sampled_from(["single", "list", "dict"]), "use_axes": st.booleans()}))
+        "container": st.sampled_from(["single", "list", "dict"]), "use_axes": st.booleans(), "standstill": st.booleans()}))
 
 
 st_err = st.fixed_dictionaries({"vals": st.lists(gen.fl(0.0, 1e3), min_size=1, max_size=50), "x": st.one_of(st.none(), st.lists(gen.fl(-5, 5), min_size=1, max_size=5)),
